@@ -1,7 +1,13 @@
 // ---- shared: placeholders and small types used by the compiler crates -------------------------
 // D-types: opaque placeholders for types no function under contract inspects.
-#[verifier::external_body] pub struct RuntimeType { x: usize }
-impl Clone for RuntimeType { #[verifier::external_body] fn clone(&self) -> (r: Self) ensures r == *self { unimplemented!() } }
+// the run-time type of sylt_common (real declaration: the resolver stores it in resolved types and the
+// type checker matches on it)
+pub mod rt {
+    use super::*;
+    use std::collections::{BTreeMap, BTreeSet};
+//@ type sylt-common/src/ty.rs enum Type keep=- eq=none clone=ext
+}
+pub use rt::Type as RuntimeType;
 #[verifier::external_body] pub struct FileOrLib { x: usize }
 impl Clone for FileOrLib { #[verifier::external_body] fn clone(&self) -> (r: Self) ensures r == *self { unimplemented!() } }
 // D-msg: errors are opaque values that remember the span they were built with (ghost accessor)
